@@ -503,6 +503,11 @@ func (e *SEnv) ident(name string) Val {
 			return e.pkgObject(obj)
 		}
 	}
+	// a heap array of the model by its name (C_<type>: cells of that type, F_<struct>_<field>, A_<elem>):
+	// used by frame clauses of callbacks ("every cell but mine is unchanged")
+	if (strings.HasPrefix(name, "C_") || strings.HasPrefix(name, "F_") || strings.HasPrefix(name, "A_")) && c.ensureArr(name) {
+		return Val{T: c.arrIn(e.st, name), S: c.arrSorts[name]}
+	}
 	if os.Getenv("GOVC_DEBUG") != "" {
 		fmt.Fprintf(os.Stderr, "DEBUG unknown ident %q: candidates=%d curBlock=%v\n", name, len(c.nameAll[name]), c.curBlock)
 		for _, v := range c.nameAll[name] {
@@ -793,6 +798,14 @@ func (e *SEnv) call(n *ECall) Val {
 			for _, v := range c.nameAll["&"+id.Name] {
 				if b, ok := c.env[v]; ok && c.definedHere(v) {
 					return Val{T: b.V.T, S: SInt, GT: v.Type()}
+				}
+			}
+			// inside a closure: a captured variable is held by its cell; the free variable IS the address
+			for _, fv := range c.fn.FreeVars {
+				if fv.Name() == id.Name {
+					if b, ok := c.env[fv]; ok {
+						return Val{T: b.V.T, S: SInt, GT: fv.Type()}
+					}
 				}
 			}
 			panic("spec: unknown identifier \"" + id.Name + "\" (addr) in contract of " + c.fnKey())
